@@ -15,6 +15,19 @@ def parseKind (j : Json) : Except String GenKind := do
   | "st" => return .stream (← a[1]!.getNat?)
   | k => throw s!"unknown generator kind {k}"
 
+/-- a time: an integer, or `[numerator, denominator]` -/
+def parseTime (j : Json) : Except String TimeV := do
+  match j with
+  | .arr a => return mkRat (← a[0]!.getInt?) (← a[1]!.getNat?)
+  | x => return ((← x.getInt?) : Int)
+
+def jTime (t : TimeV) : Json := Json.arr #[toJson t.num, toJson t.den]
+
+def parseTT : String → Except String TimeType
+  | "int" => pure .int
+  | "frac" => pure .frac
+  | x => throw s!"unknown time type {x}"
+
 def parseFail (j : Json) : Except String (Option (Nat × Exc)) := do
   match getOpt j "fail" with
   | none => return none
@@ -44,8 +57,9 @@ def parseExc : String → Except String Exc
 
 partial def parseOp (j : Json) : Except String Op := do
   match ← getStr j "op" with
-  | "setTime" => return .setTime (← getInt j "t")
-  | "advance" => return .advance (← getInt j "d")
+  | "setTime" => return .setTime (← parseTime (← j.getObjVal? "t"))
+  | "setTimeType" => return .setTimeType (← parseTime (← j.getObjVal? "t")) (← parseTT (← getStr j "tt"))
+  | "advance" => return .advance (← parseTime (← j.getObjVal? "d"))
   | "setStep" => return .setStep (← getInt j "s")
   | "setUntil" => return .setUntil ((getOpt j "u").bind (·.getInt?.toOption))
   | "read" => return .read (← parseTarget (← j.getObjVal? "tg")) (← getNat j "p")
@@ -95,16 +109,17 @@ def jOptInt : Option Int → Json
   | some i => toJson i
 
 def jSnap (s : Snap) : Json :=
-  Json.arr #[toJson s.time, toJson s.timestep, jOptInt s.untl, toJson s.depth,
-    match s.inContext with | none => Json.null | some b => Json.bool b]
+  Json.arr #[jTime s.time, toJson s.timestep, jOptInt s.untl, toJson s.depth,
+    (match s.inContext with | none => Json.null | some b => Json.bool b),
+    Json.str (match s.timeType with | .int => "int" | .frac => "frac")]
 
 def jKind : GenKind → Json
   | .td n s => Json.arr #[Json.str "td", Json.str n, toJson s]
   | .sampled n s p o => Json.arr #[Json.str "sm", Json.str n, toJson s, toJson p, toJson o]
   | .stream sid => Json.arr #[Json.str "st", toJson sid]
 
-def jCaches (c : List (OV × Option Int × Nat × Nat)) : Json :=
-  Json.arr (c.map fun (l, t, n1, n2) => Json.arr #[jOV l, jOptInt t, toJson n1, toJson n2]).toArray
+def jCaches (c : List (OV × Option TimeV × Nat × Nat)) : Json :=
+  Json.arr (c.map fun (l, t, n1, n2) => Json.arr #[jOV l, (match t with | some x => jTime x | none => Json.null), toJson n1, toJson n2]).toArray
 
 def jEv (e : OEv) : Json := Json.mkObj [
   ("tag", Json.str e.tag), ("res", jRes e.res), ("clock", jSnap e.clock), ("caches", jCaches e.caches),
@@ -132,17 +147,17 @@ def parseRes (j : Json) : Except String ORes := do
 
 def parseSnap (j : Json) : Except String Snap := do
   let a ← j.getArr?
-  return { time := ← a[0]!.getInt?, timestep := ← a[1]!.getInt?,
+  return { time := ← parseTime a[0]!, timeType := ← parseTT (← a[5]!.getStr?), timestep := ← a[1]!.getInt?,
            untl := match a[2]! with | .null => none | x => x.getInt?.toOption,
            depth := ← a[3]!.getNat?,
            inContext := match a[4]! with | .null => none | x => x.getBool?.toOption }
 
-def parseCaches (j : Json) : Except String (List (OV × Option Int × Nat × Nat)) := do
+def parseCaches (j : Json) : Except String (List (OV × Option TimeV × Nat × Nat)) := do
   (← j.getArr?).toList.mapM fun c => do
     let a ← c.getArr?
     let t ← match a[1]! with
       | .null => pure none
-      | x => do pure (some (← x.getInt?))
+      | x => do pure (some (← parseTime x))
     return (← parseOV a[0]!, t, ← a[2]!.getNat?, ← a[3]!.getNat?)
 
 def parseEv (j : Json) : Except String OEv := do
